@@ -455,8 +455,9 @@ pub fn register_upvalue<T>(
     if is_local {
         let location = &vm.runtime_data.value_stack.as_slice()[index as usize];
         let location = (location as *const Value).cast_mut();
-        unsafe {
-            // look for an existing upvalue to the same location
+        // the position of `location` in the list of open upvalues (sorted, highest first):
+        // (the upvalue in front of it, the first upvalue that is not above it)
+        let find = |vm: &Vm<T>| unsafe {
             let mut prev_upvalue = std::ptr::null_mut();
             let mut upvalue = vm.runtime_data.open_upvalues;
             while let Some(u) = upvalue.as_ref().and_then(|o| o.as_upvalue()) {
@@ -466,6 +467,11 @@ pub fn register_upvalue<T>(
                 prev_upvalue = upvalue;
                 upvalue = u.next;
             }
+            (prev_upvalue, upvalue)
+        };
+        unsafe {
+            // look for an existing upvalue to the same location
+            let (_, upvalue) = find(vm);
             if upvalue
                 .as_ref()
                 .and_then(|u| u.as_upvalue())
@@ -475,19 +481,24 @@ pub fn register_upvalue<T>(
                 // if there is an existing upvalue to this location reuse that
                 c.upvalues.push(NonNull::new_unchecked(upvalue));
             } else {
-                let upvalue = vm.init_upvalue(location)?;
+                let new_upvalue = vm.init_upvalue(location)?;
+                // the allocation may have collected garbage, unused open upvalues among it
+                let (prev_upvalue, next_upvalue) = find(vm);
 
-                // keep the open upvalues sorted
+                // keep the open upvalues sorted: the new one goes between its neighbours
+                if let Some(u) = (*new_upvalue.0.as_ptr()).as_upvalue_mut() {
+                    u.next = next_upvalue;
+                }
                 match prev_upvalue.as_mut().and_then(|u| u.as_upvalue_mut()) {
                     Some(prev_upvalue) => {
-                        prev_upvalue.next = upvalue.0.as_ptr();
+                        prev_upvalue.next = new_upvalue.0.as_ptr();
                     }
                     None => {
-                        vm.runtime_data.open_upvalues = upvalue.0.as_ptr();
+                        vm.runtime_data.open_upvalues = new_upvalue.0.as_ptr();
                     }
                 }
 
-                c.upvalues.push(upvalue.0);
+                c.upvalues.push(new_upvalue.0);
             }
         }
     } else {
